@@ -58,7 +58,48 @@ fn backgrounds(len: usize, tier: Tier, header_bits: usize) -> Vec<Vec<u8>> {
     v
 }
 
+pub fn replay(path: &str) -> i32 {
+    let s = std::fs::read_to_string(path).expect("MACHINERY: cannot read replay file");
+    let v: serde_json::Value = serde_json::from_str(&s).expect("MACHINERY: replay JSON");
+    let r = if v.get("replay").is_some() { &v["replay"] } else { &v };
+    if r.get("field").is_none() {
+        let len = r["len"].as_u64().unwrap() as usize;
+        let name = r["view"].as_str().unwrap();
+        let bad: Vec<_> = pkt::ctor_results(len).into_iter().filter(|(n, min, a, b)| *n == name && (*a != (len >= *min) || *b != (len >= *min))).collect();
+        println!("constructors of {name} on {len} octets: {bad:?}");
+        if bad.is_empty() {
+            println!("replay: property held");
+            return 0;
+        }
+        println!("VIOLATION property=C12 replay={path}");
+        return 1;
+    }
+    let fields = pkt::fields();
+    let f = fields.iter().find(|f| f.pkt == r["packet"].as_str().unwrap() && f.name == r["field"].as_str().unwrap()).expect("MACHINERY: field");
+    let arg = u128::from_str_radix(r["arg"].as_str().unwrap().trim_start_matches("0x"), 16).unwrap();
+    let bg: Vec<u8> = r["background"].as_array().unwrap().iter().map(|b| b.as_u64().unwrap() as u8).collect();
+    let mask: u128 = if f.width == 128 { u128::MAX } else { (1u128 << f.width) - 1 };
+    let mut want = bg.clone();
+    pkt::put_bits(&mut want, f.bit_off, f.width, arg & mask);
+    let mut buf = bg.clone();
+    let got = mc::catch(|| {
+        (f.set)(&mut buf, arg);
+        (f.get)(&buf)
+    });
+    println!("{}.set_{}({arg:#x}) on {bg:02x?}\n  buffer   {buf:02x?}\n  expected {want:02x?}\n  get -> {got:?} (expected {:#x})", f.pkt, f.name, arg & mask);
+    if buf == want && matches!(got, Ok(g) if g == arg & mask) {
+        println!("replay: property held");
+        0
+    } else {
+        println!("VIOLATION property=C12 replay={path}");
+        1
+    }
+}
+
 pub fn run(args: &Args) -> i32 {
+    if let Some(path) = &args.replay {
+        return replay(path);
+    }
     let tier = args.tier;
     let mut rep = Report::new("C12", tier, "exploration");
     let fields = pkt::fields();
